@@ -222,6 +222,19 @@ func (s *Store) MakeCommitWithSig(tree Hash, parents []Hash, message, sig string
 	return s.put("commit", withSig(head, message, sig))
 }
 
+// MakeCommitWithSigAt is MakeCommitWithSig with a fixed timestamp (stable object id).
+func (s *Store) MakeCommitWithSigAt(tree Hash, parents []Hash, message, sig string, ts int64) (Hash, error) {
+	s.mu.Lock()
+	saved := s.Clock
+	s.Clock = ts - 1
+	s.mu.Unlock()
+	head, _ := s.encodeCommit(tree, parents, message, "")
+	s.mu.Lock()
+	s.Clock = saved
+	s.mu.Unlock()
+	return s.put("commit", withSig(head, message, sig)), nil
+}
+
 // MakeTag creates an annotated tag object pointing at target (a commit).
 func (s *Store) MakeTag(target Hash, name, message string, pemKey []byte) (Hash, error) {
 	s.mu.Lock()
